@@ -186,12 +186,15 @@ def run_check(prop: str, tier: str, seed: int) -> int:
     mod = importlib.import_module(f"jv.props.{prop.lower()}")
     nshards = getattr(mod, "SHARDS", {"quick": NCPU, "thorough": NCPU * 4}).get(tier, NCPU)
     tmp = tempfile.mkdtemp(prefix=f"jv_{prop}_")
+    shm = "/dev/shm" if os.path.isdir("/dev/shm") and os.access("/dev/shm", os.W_OK) else None
+    wsbase = tempfile.mkdtemp(prefix=f"jv_run_{prop}_", dir=shm)      # workers' scratch files; removed here even if a worker is killed
     watchdog = float(os.environ.get("JV_WATCHDOG_S", getattr(mod, "WATCHDOG", {"quick": 900, "thorough": 6 * 3600})[tier]))
     results, failed = [], []
     try:
         pending = list(range(nshards))
         running = []
         env = child_env()
+        env["JV_WS_BASE"] = wsbase
         while pending or running:
             while pending and len(running) < NCPU:
                 k = pending.pop(0)
@@ -226,6 +229,7 @@ def run_check(prop: str, tier: str, seed: int) -> int:
             running = still
     finally:
         shutil.rmtree(tmp, ignore_errors=True)
+        shutil.rmtree(wsbase, ignore_errors=True)
     return finish(prop, tier, seed, mod, results, failed, time.time() - t0, nshards)
 
 
